@@ -1,3 +1,4 @@
 import PytaskModel.Generated
 import PytaskModel.Graph
 import PytaskModel.Sorter
+import PytaskModel.Engine
